@@ -32,9 +32,20 @@ BUDGET = {
 }
 
 
-def strategy(tier):
+@st.composite
+def strategy_(draw, tier):
     big = tier == "thorough"
-    return gen.model_cases(max_nodes=7 if big else 5, p_opts=3)
+    case = draw(gen.model_cases(max_nodes=7 if big else 5, p_opts=3))
+    # separately labelled class: an isolated node (both source and sink) in edge mode - single-node routes (known finding F19e)
+    kw = case["kw"]
+    if draw(st.integers(0, 14)) == 0 and kw.get("flow_attr_origin", kw.get("cover_type", "edge")) == "edge":
+        case["graph"]["nodes"].append(["iso", {}])
+        case["meta"]["isolated_node"] = True
+    return case
+
+
+def strategy(tier):
+    return strategy_(tier)
 
 
 def run_case(case, tier="quick"):
@@ -78,7 +89,9 @@ def run_case(case, tier="quick"):
     routes = sol[key]
     opts = kw.get("optimization_options") or {}
     empties_ok = bool(kw.get("solution_weights_superset")) or bool(opts.get("allow_empty_paths")) or bool(opts.get("allow_empty_walks"))
-    facts = {"single_node_route": any(G.in_degree(v) == 0 and G.out_degree(v) == 0 for v in G.nodes), "node_mode": node_mode}
+    facts = {"single_node_route": (not node_mode) and any(G.in_degree(v) == 0 and G.out_degree(v) == 0 for v in G.nodes), "node_mode": node_mode}
+    if facts["single_node_route"]:
+        labels.add("isolated_node")
     nonempty = []
     for rt in routes:
         if rt == [] and empties_ok:
